@@ -89,13 +89,19 @@ inductive Ev where
   does not have it (`Facts.absent`), nothing otherwise (the names it binds follow as `bind`s) -/
   | ext (x : Nat)
   /-- `try:` … `tryExcept` … `tryEnd`: a `try` statement with a handler that catches
-  `ImportError`; between `tryBegin` and `tryExcept` the body (and the `else` part), between
-  `tryExcept` and `tryEnd` the handler -/
+  `ImportError`; between `tryBegin` and `tryExcept` the body, between `tryExcept` and `tryEnd`
+  (or `tryElse`) the handler, between `tryElse` and `tryEnd` the `else` part -/
   | tryBegin
   /-- `mask`: which of the would-be failures the handler catches (bit 0: `ImportError`,
-  bit 1: `NameError`, bit 2: `AttributeError`; `except Exception` / a bare `except` catch all) -/
+  bit 1: `NameError`, bit 2: `AttributeError`; `except Exception` / a bare `except` catch all;
+  bit 3 catches nothing: it marks a handler that *repairs* the failure by importing, the
+  lazy-import idiom `try: lena.flow / except AttributeError: import lena.flow`, see `execEvsT`) -/
   | tryExcept (mask : Nat)
   | tryEnd
+  /-- `else:` of a `try` statement, between the (single catching) handler and `tryEnd`: the events
+  up to `tryEnd` run exactly when the body ran to its end, and a failure among them is **not**
+  caught by the handler of this `try` -/
+  | tryElse
   /-- in a function body: `global n; n = …` (also `globals()["n"] = …`): binds the module's global
   at call time -/
   | gbind (n : Name)
@@ -512,6 +518,10 @@ def execEvs (F : Facts) (imp : Imp) (sc : Scope) :
       match d with
       | 0 => execEvs F imp sc rest .run saved loc σ
       | d' + 1 => execEvs F imp sc rest (.skipping d' r) saved loc σ
+    | .tryElse =>
+      match d with
+      | 0 => execEvs F imp sc rest .run saved loc σ      -- the body ran to its end: the `else` part runs
+      | _ + 1 => execEvs F imp sc rest (.skipping d r) saved loc σ
     | .enter => execEvs F imp sc rest (.skipping d (r + 1)) saved loc σ
     | .leave =>
       match r with
@@ -594,6 +604,7 @@ def execEvs (F : Facts) (imp : Imp) (sc : Scope) :
     | .tryBegin => execEvs F imp sc rest .run saved loc σ
     | .tryExcept _ => execEvs F imp sc rest (.skipping 0 0) saved loc σ
     | .tryEnd => execEvs F imp sc rest .run saved loc σ
+    | .tryElse => execEvs F imp sc rest (.skipping 0 0) saved loc σ   -- the handler ran: no `else` part
     | .gbind n => execEvs F imp sc rest .run saved loc (σ.set F sc.mod n (some .obj))
     | .gunbind n =>
       match σ.get F sc.mod n with
@@ -636,6 +647,163 @@ def callFn (F : Facts) (m : ModId) (f : Func) (σ : State) : Except Err State :=
   match execEvs F (importMod F F.depth) ⟨m, some f.name⟩ f.evs .run [] [] σ with
   | .error e => .error e
   | .ok out => .ok out.σ
+
+/-! ## Which handlers run (the traced interpreter)
+
+Clause 1b of the property ("behaves the same with only its own sub-package imported as after the
+whole framework has been imported") has one consequence the facts can express: a would-be failure
+— `NameError`, `AttributeError` on a lena module, `ImportError` for a lena name — that a handler
+*catches* is not a failure of the function, but if it happens with only `lena.X` imported and does
+not happen after everything has been imported (`try: … lena.structures.histogram … except
+AttributeError:`), the function takes the handler in one interpreter and not in the other.
+`execEvsT` is `execEvs` with one more accumulator: the failures that handlers caught, in order.
+(`hasattr(lena, "x")` / `getattr(lena, "x", default)` are translated as a guarded read of
+`lena.x`, so that they are covered as well.)  A handler whose mask has bit 3 set repairs the
+failure by importing — both interpreters go on alike — and is not recorded. -/
+
+/-- what a catching handler adds to the trace -/
+def traceCatch (mask : Nat) (x : Exc) (tr : List Err) : List Err :=
+  match x with
+  | .err e => if Nat.land mask 8 != 0 then tr else tr ++ [e]
+  | .ext _ => tr
+
+/-- `execEvs` with the trace of caught failures (`imp` is not traced: what the import machinery
+catches while it executes *other* modules belongs to those modules' import, not to this code) -/
+def execEvsT (F : Facts) (imp : Imp) (sc : Scope) :
+    List Ev → Mode → List (State × Ns) → Ns → State → List Err → Res × List Err
+  | [], .raising (.ext x) _ _, _, loc, σ, tr => (.ok ⟨σ, loc, some x⟩, tr)
+  | [], .raising (.err e) _ _, _, _, _, tr => (.error e, tr)
+  | [], _, _, loc, σ, tr => (.ok ⟨σ, loc, none⟩, tr)
+  | ev :: rest, .raising x d r, saved, loc, σ, tr =>
+    match ev with
+    | .tryBegin => execEvsT F imp sc rest (.raising x (d + 1) r) saved loc σ tr
+    | .tryExcept mask =>
+      match d with
+      | 0 =>
+        if Nat.land mask x.kind != 0 then execEvsT F imp sc rest .run saved loc σ (traceCatch mask x tr)
+        else execEvsT F imp sc rest (.raising x 1 r) saved loc σ tr
+      | _ + 1 => execEvsT F imp sc rest (.raising x d r) saved loc σ tr
+    | .tryEnd => execEvsT F imp sc rest (.raising x (d - 1) r) saved loc σ tr
+    | .enter => execEvsT F imp sc rest (.raising x d (r + 1)) saved loc σ tr
+    | .leave =>
+      match r with
+      | r' + 1 => execEvsT F imp sc rest (.raising x d r') saved loc σ tr
+      | 0 =>
+        match saved with
+        | [] => (.error .malformed, tr)
+        | (s, l) :: more => execEvsT F imp sc rest (.raising x d 0) more l s tr
+    | _ => execEvsT F imp sc rest (.raising x d r) saved loc σ tr
+  | ev :: rest, .skipping d r, saved, loc, σ, tr =>
+    match ev with
+    | .tryBegin => execEvsT F imp sc rest (.skipping (d + 1) r) saved loc σ tr
+    | .tryEnd =>
+      match d with
+      | 0 => execEvsT F imp sc rest .run saved loc σ tr
+      | d' + 1 => execEvsT F imp sc rest (.skipping d' r) saved loc σ tr
+    | .tryElse =>
+      match d with
+      | 0 => execEvsT F imp sc rest .run saved loc σ tr
+      | _ + 1 => execEvsT F imp sc rest (.skipping d r) saved loc σ tr
+    | .enter => execEvsT F imp sc rest (.skipping d (r + 1)) saved loc σ tr
+    | .leave =>
+      match r with
+      | r' + 1 => execEvsT F imp sc rest (.skipping d r') saved loc σ tr
+      | 0 =>
+        match saved with
+        | [] => (.error .malformed, tr)
+        | (s, l) :: more => execEvsT F imp sc rest (.skipping d 0) more l s tr
+    | _ => execEvsT F imp sc rest (.skipping d r) saved loc σ tr
+  | ev :: rest, .run, saved, loc, σ, tr =>
+    match ev with
+    | .bind n =>
+      match bindIn F sc loc σ n .obj with
+      | (σ', loc') => execEvsT F imp sc rest .run saved loc' σ' tr
+    | .bindMod n m =>
+      match σ.statusOf m with
+      | .absent => (.error .malformed, tr)
+      | _ =>
+        match bindIn F sc loc σ n (.mod m) with
+        | (σ', loc') => execEvsT F imp sc rest .run saved loc' σ' tr
+    | .unbind n =>
+      if sc.fn.isSome then
+        match lookup n loc with
+        | some _ => execEvsT F imp sc rest .run saved (erase n loc) σ tr
+        | none => execEvsT F imp sc rest (.raising (.err (.nameError sc.mod sc.fn n)) 0 0) saved loc σ tr
+      else
+        match σ.get F sc.mod n with
+        | some _ => execEvsT F imp sc rest .run saved loc (σ.set F sc.mod n none) tr
+        | none => execEvsT F imp sc rest (.raising (.err (.nameError sc.mod sc.fn n)) 0 0) saved loc σ tr
+    | .load n =>
+      match lookupScope F σ sc loc n with
+      | some _ => execEvsT F imp sc rest .run saved loc σ tr
+      | none => execEvsT F imp sc rest (.raising (.err (.nameError sc.mod sc.fn n)) 0 0) saved loc σ tr
+    | .attr root chain =>
+      match lookupScope F σ sc loc root with
+      | none => execEvsT F imp sc rest (.raising (.err (.nameError sc.mod sc.fn root)) 0 0) saved loc σ tr
+      | some v =>
+        match walk F σ v chain with
+        | none => execEvsT F imp sc rest .run saved loc σ tr
+        | some (p, a) =>
+          execEvsT F imp sc rest (.raising (.err (.attrError sc.mod sc.fn root p a)) 0 0) saved loc σ tr
+    | .alias n root chain =>
+      match lookupScope F σ sc loc root with
+      | none => execEvsT F imp sc rest (.raising (.err (.nameError sc.mod sc.fn root)) 0 0) saved loc σ tr
+      | some v =>
+        match walkVal F σ v chain with
+        | .error (p, a) =>
+          execEvsT F imp sc rest (.raising (.err (.attrError sc.mod sc.fn root p a)) 0 0) saved loc σ tr
+        | .ok w =>
+          match bindIn F sc loc σ n w with
+          | (σ', loc') => execEvsT F imp sc rest .run saved loc' σ' tr
+    | .ensure m =>
+      match imp m σ with
+      | .error e => (.error e, tr)
+      | .ok (σ', none) => execEvsT F imp sc rest .run saved loc σ' tr
+      | .ok (σ', some x) => execEvsT F imp sc rest (.raising (.ext x) 0 0) saved loc σ' tr
+    | .fromName m n asn =>
+      match execFrom F imp sc m n asn loc σ with
+      | .error (.importError a b c d) =>
+        execEvsT F imp sc rest (.raising (.err (.importError a b c d)) 0 0) saved loc σ tr
+      | .error e => (.error e, tr)
+      | .ok ⟨σ', loc', none⟩ => execEvsT F imp sc rest .run saved loc' σ' tr
+      | .ok ⟨σ', loc', some x⟩ => execEvsT F imp sc rest (.raising (.ext x) 0 0) saved loc' σ' tr
+    | .star m =>
+      match execFroms F imp sc m (starNames F σ m) loc σ with
+      | .error e => (.error e, tr)
+      | .ok ⟨σ', loc', none⟩ => execEvsT F imp sc rest .run saved loc' σ' tr
+      | .ok ⟨σ', loc', some x⟩ => execEvsT F imp sc rest (.raising (.ext x) 0 0) saved loc' σ' tr
+    | .noModule n => execEvsT F imp sc rest (.raising (.err (.noModule sc.mod sc.fn n)) 0 0) saved loc σ tr
+    | .enter => execEvsT F imp sc rest .run ((σ, loc) :: saved) loc σ tr
+    | .leave =>
+      match saved with
+      | [] => (.error .malformed, tr)
+      | (s, l) :: more => execEvsT F imp sc rest .run more l s tr
+    | .ext x =>
+      if F.isAbsent x then execEvsT F imp sc rest (.raising (.ext x) 0 0) saved loc σ tr
+      else execEvsT F imp sc rest .run saved loc σ tr
+    | .tryBegin => execEvsT F imp sc rest .run saved loc σ tr
+    | .tryExcept _ => execEvsT F imp sc rest (.skipping 0 0) saved loc σ tr
+    | .tryEnd => execEvsT F imp sc rest .run saved loc σ tr
+    | .tryElse => execEvsT F imp sc rest (.skipping 0 0) saved loc σ tr
+    | .gbind n => execEvsT F imp sc rest .run saved loc (σ.set F sc.mod n (some .obj)) tr
+    | .gunbind n =>
+      match σ.get F sc.mod n with
+      | some _ => execEvsT F imp sc rest .run saved loc (σ.set F sc.mod n none) tr
+      | none => execEvsT F imp sc rest (.raising (.err (.nameError sc.mod sc.fn n)) 0 0) saved loc σ tr
+
+/-- the failures that handlers of `f` itself catch when `f` is called in state `σ` -/
+def callCaught (F : Facts) (m : ModId) (f : Func) (σ : State) : List Err :=
+  (execEvsT F (importMod F F.depth) ⟨m, some f.name⟩ f.evs .run [] [] σ []).2
+
+/-- the entry point that imports the whole framework: the last one (`__main__[all]`) -/
+def wholeEntry (F : Facts) : Option ModId := F.entries.getLast?
+
+def errBeq (a b : Err) : Bool := decide (a = b)
+
+def errsBeq : List Err → List Err → Bool
+  | [], [] => true
+  | a :: r, b :: s => errBeq a b && errsBeq r s
+  | _, _ => false
 
 /-! ## The resolver (the executable check) -/
 
@@ -733,6 +901,40 @@ def resolvesAll (F : Facts) : Bool :=
 whichever of the optional third-party modules (jinja2, …) can or cannot be imported -/
 def resolvesAllEnvs (F : Facts) : Bool :=
   F.envs.all (fun env => resolvesAll (F.withEnv env))
+
+/-- has the function a handler at all?  (without one its trace is empty: `callCaught_nil`) -/
+def hasHandler (f : Func) : Bool :=
+  f.evs.any (fun e => match e with | .tryExcept _ => true | _ => false)
+
+/-- **the check for clause 1b, as far as names go**: every function that can be called after
+`import lena.X` takes the same handlers for undefined-name failures in the fresh interpreter that
+imported only `lena.X` (state `so`) as in the one that imported the whole framework (`sw`) -/
+def orderIndependentStates (F : Facts) (so sw : State) : Bool :=
+  (callables F so).all (fun mf =>
+    !hasHandler mf.2 ||
+    match sw.statusOf mf.1 with
+    | .done => errsBeq (callCaught F mf.1 mf.2 so) (callCaught F mf.1 mf.2 sw)
+    | _ => true)
+
+/-- … for the entry point `own`, against the state `sw` after the import of the whole framework -/
+def orderIndependentEntry (F : Facts) (sw : State) (own : ModId) : Bool :=
+  match importEntry F own with
+  | .ok (σo, none) => σo.force (fun so => orderIndependentStates F so sw)
+  | _ => true      -- a failing import is `resolvesEntry`'s business
+
+/-- `orderIndependentEntry` for every entry point, against the state after the import of the
+whole framework -/
+def orderIndependent (F : Facts) : Bool :=
+  match wholeEntry F with
+  | some whole =>
+    match importEntry F whole with
+    | .ok (σw, none) => σw.force (fun sw => F.entries.all (orderIndependentEntry F sw))
+    | _ => true
+  | none => true
+
+/-- in every environment -/
+def orderIndependentEnvs (F : Facts) : Bool :=
+  F.envs.all (fun env => orderIndependent (F.withEnv env))
 
 /-! ## Exceptions and locals (static facts about `class` and `raise` statements)
 
